@@ -155,7 +155,7 @@ def run_case(spec: dict[str, Any], sd: dict[str, Any], cancel_at: int) -> Run:
 def cancel_spec(draw) -> dict[str, Any]:
     base = draw(st.one_of(
         st.sampled_from([v for k, v in core_corpus().items() if k not in ("choice",)]),
-        dag_spec(max_stages=6, allow=("multi", "fail", "cof", "poll", "transient", "skip")),
+        dag_spec(max_stages=6, allow=("multi", "fail", "cof", "stop", "poll", "transient", "skip")),
         loop_spec(max_j=2),
     ))
     spec = {k: (([dict(s) for s in v]) if k == "stages" else v) for k, v in base.items()}
